@@ -4,6 +4,7 @@
 Regenerates lean/AndaVerif/Gen/BeliefPolicy.lean from
   rs/anda_cognitive_nexus/src/projection/policy.rs   (baseline / forecast constants, mode_exclusion table,
                                                       from_settings: refusal, custom suffix, threshold range)
+  rs/anda_cognitive_nexus/src/kql/mod.rs             (the query context's evaluation instant: `time::now()` or `time::normalize(..)`)
   rs/anda_cognitive_nexus/src/projection/mod.rs      (classify: threshold comparisons and verdict order;
                                                       eligible: lifecycle table, stage order, window
                                                       comparisons, what it reads; aggregate: side filters, clamp)
@@ -439,6 +440,26 @@ def main():
     if not (side_opp and side_sup):
         die("aggregate: the side filters are not the expected `opposes_target || reject` / `!opposes_target && support`")
 
+    # ------------------------------------------------------------------ kql/mod.rs: where the evaluation instant comes from
+    kql = cut_tests(strip_comments(open(os.path.join(repo, "rs/anda_cognitive_nexus/src/kql/mod.rs")).read()))
+    kf = functions(kql)
+    # the field of the query context that holds the instant: the one `project_belief`'s caller reads is `at`
+    init = re.findall(r"(?<![\w.])at\s*:\s*([^,}]+)[,}]", kf["open"].body if "open" in kf else "")
+    if len(init) != 1:
+        die(f"kql Context::open: expected exactly one initialisation of the field `at`, found {len(init)}")
+    initial_kind = "now" if re.search(r"\btime::now\(\)|(?<![\w.])now\(\)", init[0]) else "other"
+    assign_kinds = set()
+    n_assign = 0
+    for name in kf:
+        if name == "open":
+            continue
+        body = linearise(kf, name)
+        for m in re.finditer(r"\b\w+\s*\.\s*at\s*=(?!=)\s*([^;]+);", body):
+            n_assign += 1
+            assign_kinds.add("normalize" if re.search(r"\bnormalize\(", m.group(1)) else "raw")
+    if n_assign == 0:
+        die("kql/mod.rs: no assignment to the context's evaluation instant (`.at = …`) found")
+
     q = lambda f: int(f * den)
     lines = []
     w = lines.append
@@ -493,6 +514,9 @@ def main():
     w(f"def guardedStatusArms : Nat := {guarded}")
     w("/-- the row columns `eligible` (helpers inlined) reads -/")
     w(f"def eligibleRowColumns : List String := {lean_str_list(row_fields)}")
+    w("/-- kql: what the query context's evaluation instant is initialised with, and what is ever assigned to it -/")
+    w(f'def contextInstantInitial : String := "{initial_kind}"')
+    w(f"def contextInstantAssigned : List String := {lean_str_list(sorted(assign_kinds))}")
     w("")
     w("-- facts the model and the theorems rely on (fail to check when the source drifts)")
     w("theorem gen_baseline_den_pos : 0 < baselineDen := by decide")
@@ -507,6 +531,7 @@ def main():
     w('theorem gen_engaged : engagedTerms = ["support_groups>0", "opposition_groups>0", "!uncertain.is_empty()"] ∧ engagedOps = ["||", "||"] ∧ notEngagedTestedFirst = true := by decide')
     w('theorem gen_eligible_skeleton : statusArms = [("active", ""), ("expired", "expired"), ("retracted", "retracted"), ("superseded", "superseded"), ("_", "invalid_schema")] ∧ notVisibleReason = "not_visible" ∧ validFromExcludedWhen = ">" ∧ validUntilExcludedWhen = "<=" ∧ windowReasons = ["outside_valid_time"] ∧ unstatedWhenConfidence = "< 0" ∧ eligibleStageOrder = ["status", "state", "valid_from", "valid_until", "mode", "unstated"] ∧ clampBounds = ("0.0", "1.0") := by decide')
     w('theorem gen_lifecycle_stage_has_no_clock : evaluationInstantReads = (2, 0) ∧ guardedStatusArms = 0 ∧ eligibleRowColumns = ["_id", "asserted_by_key", "confidence", "evidence_ids", "mode", "stance", "state", "status", "valid_from", "valid_until"] := by decide')
+    w('theorem gen_instant_is_normalised : contextInstantInitial = "now" ∧ contextInstantAssigned = ["normalize"] := by decide')
     w("")
     w("end AndaVerif.Gen.BeliefPolicy")
     os.makedirs(gen, exist_ok=True)
